@@ -335,7 +335,9 @@ class EqualityComparer:
     def map_named_call_result(
             self, expr1: NamedCallResult, expr2: NamedCallResult) -> bool:
         return (expr1.name == expr2.name
-                and self.rec(expr1._container, expr2._container))
+                and self.rec(expr1._container, expr2._container)
+                and expr1.tags == expr2.tags
+                and expr1.axes == expr2.axes)
 
 # }}}
 
